@@ -1,6 +1,7 @@
 package datadog
 
 import (
+	"math"
 	"time"
 
 	"github.com/atlassian/gostatsd"
@@ -38,4 +39,38 @@ func VerifC17_DatadogBatches() {
 	}
 	verifAssert(len(seen) == 2*k, "datadog: nothing else is emitted")
 	verifReach("batched")
+}
+
+// VerifC17_DatadogHistogram: a histogram timer with three buckets whose tag slice has spare
+// capacity (as slices grown by append in the lexer and the tag stage have): every bucket is
+// emitted exactly once, as <name>.histogram, with the timer's tags plus ITS le: tag and ITS
+// count - also after all batches have been built (the series must not share tag storage).
+func VerifC17_DatadogHistogram() {
+	d := &Client{metricsPerBatch: uint(nondetIntIn(1, 5)), flushInterval: 10 * time.Second}
+	c1, c2, c3 := nondetIntIn(0, 1000), nondetIntIn(0, 1000), nondetIntIn(0, 1000)
+	tags := make(gostatsd.Tags, 1, 4)
+	tags[0] = "t:1"
+	mm := gostatsd.NewMetricMap(false)
+	mm.Timers["x"] = map[string]gostatsd.Timer{"": {Source: "h", Tags: tags, Histogram: map[gostatsd.HistogramThreshold]int{
+		10: c1, 30: c2, gostatsd.HistogramThreshold(math.Inf(1)): c3}}}
+	var batches []*timeSeries
+	d.processMetrics(100, mm, func(ts *timeSeries) {
+		batches = append(batches, ts)
+	})
+	want := map[string]int{"le:10": c1, "le:30": c2, "le:+Inf": c3}
+	seen := map[string]int{}
+	n := 0
+	for _, ts := range batches {
+		for _, m := range ts.Series {
+			n++
+			verifAssert(m.Metric == "x.histogram" && m.Host == "h" && len(m.Tags) == 2 && m.Tags[0] == "t:1", "datadog histogram: name, host and the timer's tags on every bucket series")
+			if len(m.Tags) == 2 {
+				seen[m.Tags[1]]++
+				w, ok := want[m.Tags[1]]
+				verifAssert(ok && len(m.Points) == 1 && m.Points[0][1] == float64(w), "datadog histogram: a bucket series carries its own le: tag and its own count")
+			}
+		}
+	}
+	verifAssert(n == 3 && seen["le:10"] == 1 && seen["le:30"] == 1 && seen["le:+Inf"] == 1, "datadog histogram: every bucket exactly once across the batches")
+	verifReach("histogram")
 }
